@@ -12,10 +12,15 @@
 (*            bytes, shape <<>> for a scalar, order "lt" | "gt" | "na" (no byte order)*)
 (*   descr  = Seq(field)            row = an integer token (the harness maps byte      *)
 (*            patterns to tokens and back; equal bytes <=> equal token)               *)
+(*   table  = [descr, rows, n, block]: n rows; a token stands for `block` consecutive  *)
+(*            rows (block = 1 for small tables; tables of 2^24 .. 2^25 bytes are       *)
+(*            compared block-wise by digest), Len(rows) = ceil(n / block)              *)
 (*   header = Seq([k, v, reserved]) key / value ids (the harness maps Python objects   *)
 (*            to ids: a value read back gets the id of the written value it equals,   *)
 (*            0 if it equals none); reserved = the key starts with an underscore      *)
-(*            (the statement exempts the reserved underscore-prefixed names)           *)
+(*            (the statement exempts the reserved underscore-prefixed names); a key    *)
+(*            that merely LOOKS like a reserved one - delim, SIZE, Dtype, nrows ... -   *)
+(*            is an ordinary user key                                                  *)
 (*                                                                                    *)
 (*   layout = how the written array lies in memory: "contig", "step2" (every second   *)
 (*            row of a buffer), "reversed" (negative stride), "column2d" (a column of  *)
@@ -69,31 +74,33 @@ FOrders(d) == [i \in DOMAIN d |-> d[i].order]
 VARIABLES file, res
 brvars == <<file, res>>
 
-NoFile == [st |-> "none", descr |-> <<>>, rows |-> <<>>, user |-> <<>>, hlen |-> 0]
+NoFile == [st |-> "none", descr |-> <<>>, rows |-> <<>>, n |-> 0, block |-> 1, user |-> <<>>, hlen |-> 0]
 NoHdr  == [present |-> FALSE, size |-> -1, dtype_ok |-> FALSE, descr |-> <<>>, ents |-> <<>>]
-NoRes(o)  == [op |-> o, entry |-> "none", err |-> "none", descr |-> <<>>, rows |-> <<>>, hdr |-> NoHdr]
+NoRes(o)  == [op |-> o, entry |-> "none", err |-> "none", descr |-> <<>>, rows |-> <<>>, n |-> 0, hdr |-> NoHdr]
 AnyRes(o, e) == [NoRes(o) EXCEPT !.err = "any", !.entry = e]
 
 BRInit == file = NoFile /\ res = NoRes("init")
 
 \* number of bytes of the file, and the row count a reader that is not told derives from it
-NBytes(f)     == f.hlen + Len(f.rows) * ItemSize(f.descr)
+NBytes(f)     == f.hlen + f.n * ItemSize(f.descr)
 RowsBySize(f) == (NBytes(f) - f.hlen) \div ItemSize(f.descr)
 
 \* w(path, table, header=h): a non-append write replaces the file.  hl: the length of the header text
 \* (any positive number - the statement does not fix the layout; 0 for the header-less writers)
+TableOK(t) == t.n >= 1 /\ t.block >= 1 /\ Len(t.rows) = (t.n + t.block - 1) \div t.block
+
 \* lay: the memory layout of the array argument - it does not occur on the right-hand side
 Write(w, t, h, hl, lay) ==
-    /\ w \in Writers /\ DescrOK(t.descr) /\ Len(t.rows) >= 1
-    /\ lay \in Layouts /\ (lay = "zerod" => Len(t.rows) = 1)
+    /\ w \in Writers /\ DescrOK(t.descr) /\ TableOK(t)
+    /\ lay \in Layouts /\ (lay = "zerod" => t.n = 1)
     /\ (w \in RawWriters) => (h = <<>> /\ hl = 0)
     /\ (w \in HdrWriters) => hl > 0
     /\ file' = [st |-> IF w \in HdrWriters THEN "hdr" ELSE "raw", descr |-> t.descr, rows |-> t.rows,
-                user |-> h, hlen |-> hl]
+                n |-> t.n, block |-> t.block, user |-> h, hlen |-> hl]
     /\ res' = [NoRes("write") EXCEPT !.entry = w]
 
 \* what the header read back must show
-HdrOf(f) == [present |-> TRUE, size |-> Len(f.rows), dtype_ok |-> TRUE, descr |-> f.descr,
+HdrOf(f) == [present |-> TRUE, size |-> f.n, dtype_ok |-> TRUE, descr |-> f.descr,
              ents |-> [i \in DOMAIN f.user |-> [k |-> f.user[i].k, v |-> f.user[i].v]]]
 
 \* r(path [, dtype = the written dtype, offset = hlen]): the whole table
@@ -104,28 +111,28 @@ Read(r) ==
               ELSE IF r \in SelfReaders
                    THEN IF file.st = "hdr"
                         THEN [op |-> "read", entry |-> r, err |-> "none", descr |-> file.descr, rows |-> file.rows,
-                              hdr |-> HdrOf(file)]
+                              n |-> file.n, hdr |-> HdrOf(file)]
                         ELSE AnyRes("read", r)              \* a header-less file is not self-describing
                    ELSE [op |-> "read", entry |-> r, err |-> "none", descr |-> file.descr,
-                         rows |-> SubSeq(file.rows, 1, RowsBySize(file)), hdr |-> NoHdr]
+                         rows |-> file.rows, n |-> RowsBySize(file), hdr |-> NoHdr]
 
 \* ---- theorems about the specification itself (checked by BinRoundTripMC) --------------------------
 ReadInv == (res.op = "read" /\ res.err = "none") =>
-              /\ res.descr = file.descr /\ res.rows = file.rows
-              /\ res.hdr.present => (res.hdr.size = Len(file.rows) /\ res.hdr.descr = file.descr)
-SizeInv == file.st # "none" => (RowsBySize(file) = Len(file.rows) /\ DescrOK(file.descr) /\ Len(file.rows) >= 1)
+              /\ res.descr = file.descr /\ res.rows = file.rows /\ res.n = file.n
+              /\ res.hdr.present => (res.hdr.size = file.n /\ res.hdr.descr = file.descr)
+SizeInv == file.st # "none" => (RowsBySize(file) = file.n /\ DescrOK(file.descr) /\ TableOK(file))
 ReadsArePure == [][res'.op = "read" => file' = file]_brvars
 
 \* =====================================================================================================
 \* Acceptance of what the real code did (used by BinRoundTripTrace).  A record is
-\*   c   = [writer, layout, descr, rows (of the array as indexed), hdr |-> [given : BOOLEAN, ents : Seq([k, v, reserved])]]
+\*   c   = [writer, layout, descr, n, block, rows (of the array as indexed), hdr |-> [given : BOOLEAN, ents : Seq([k, v, reserved])]]
 \*   w   = [err]                                                  the write call
-\*   obs = Seq([readers, err, descr, rows, hdr |-> [present, size, dtype_ok, descr, ents : Seq([k, v])]])
+\*   obs = Seq([readers, err, descr, n, rows, hdr |-> [present, size, dtype_ok, descr, ents : Seq([k, v])]])
 \*         one element per distinct outcome; readers = the entry points that returned exactly it
-\*   raw = [seen : BOOLEAN, rows]       the last Len(rows)*itemsize bytes of the file, as row tokens
+\*   raw = [seen : BOOLEAN, n, rows]       the last Len(rows)*itemsize bytes of the file, as row tokens
 \* Every clause is named; a failing clause is reported as <<entry point, clause>>.
-InScope(c) == /\ c.writer \in Writers /\ DescrOK(c.descr) /\ Len(c.rows) >= 1
-              /\ c.layout \in Layouts /\ (c.layout = "zerod" => Len(c.rows) = 1)
+InScope(c) == /\ c.writer \in Writers /\ DescrOK(c.descr) /\ TableOK(c)
+              /\ c.layout \in Layouts /\ (c.layout = "zerod" => c.n = 1)
               /\ (c.writer \in RawWriters) => (~c.hdr.given /\ c.hdr.ents = <<>>)
               /\ \A i, j \in DOMAIN c.hdr.ents : i # j => c.hdr.ents[i].k # c.hdr.ents[j].k
 
@@ -135,7 +142,7 @@ ReadersFor(c) == IF c.writer \in HdrWriters THEN Readers ELSE GivenReaders
 UserEnts(c) == {i \in DOMAIN c.hdr.ents : ~c.hdr.ents[i].reserved}
 
 HdrFailing(c, h) ==
-    (IF h.size = Len(c.rows) THEN {} ELSE {"hdr_row_count"})
+    (IF h.size = c.n THEN {} ELSE {"hdr_row_count"})
     \cup (IF h.dtype_ok /\ h.descr = c.descr THEN {} ELSE {"hdr_dtype"})
     \cup (IF \A i \in UserEnts(c) : \E j \in DOMAIN h.ents : h.ents[j].k = c.hdr.ents[i].k THEN {} ELSE {"hdr_key_missing"})
     \cup (IF \A i \in UserEnts(c) : \A j \in DOMAIN h.ents :
@@ -146,7 +153,7 @@ TableFailing(c, o) ==
     \cup (IF FTypes(o.descr) = FTypes(c.descr) THEN {} ELSE {"field_types"})
     \cup (IF FShapes(o.descr) = FShapes(c.descr) THEN {} ELSE {"subarray_shapes"})
     \cup (IF FOrders(o.descr) = FOrders(c.descr) THEN {} ELSE {"byte_order"})
-    \cup (IF Len(o.rows) = Len(c.rows) THEN (IF o.rows = c.rows THEN {} ELSE {"row_bytes"}) ELSE {"row_count"})
+    \cup (IF o.n = c.n THEN (IF o.rows = c.rows THEN {} ELSE {"row_bytes"}) ELSE {"row_count"})
 
 \* one observation stands for all the entry points that returned exactly this (o.readers)
 ObsFailing(c, o) ==
@@ -154,7 +161,7 @@ ObsFailing(c, o) ==
     ELSE TableFailing(c, o) \cup (IF o.hdr.present THEN HdrFailing(c, o.hdr) ELSE {})   \* readers that return no header show none
 
 \* a file written by any entry point reads identically through every other
-Agree(o1, o2) == /\ o1.descr = o2.descr /\ o1.rows = o2.rows
+Agree(o1, o2) == /\ o1.descr = o2.descr /\ o1.rows = o2.rows /\ o1.n = o2.n
                  /\ (o1.hdr.present /\ o2.hdr.present) => o1.hdr = o2.hdr
 
 \* the entry points of an observation the specification constrains for this case
@@ -165,7 +172,7 @@ Failing(c, w, obs, raw) ==
     ELSE IF w.err = "crashed" THEN {<<c.writer, "process_crashed">>}       \* the interpreter died during the cycle
     ELSE IF w.err # "none" THEN {<<c.writer, "write_rejected">>}
     ELSE UNION {{<<rd, cl>> : rd \in Constrained(c, obs[k]), cl \in ObsFailing(c, obs[k])} : k \in DOMAIN obs}
-         \cup (IF raw.seen /\ raw.rows # c.rows THEN {<<c.writer, "raw_rows">>} ELSE {})
+         \cup (IF raw.seen /\ (raw.rows # c.rows \/ raw.n # c.n) THEN {<<c.writer, "raw_rows">>} ELSE {})
          \cup (IF /\ c.writer \in HdrWriters /\ c.hdr.given
                   /\ \E k \in DOMAIN obs : obs[k].err = "none" /\ VRange(obs[k].readers) \cap SelfReaders # {}
                   /\ ~(\E k \in DOMAIN obs : obs[k].err = "none" /\ obs[k].hdr.present)
@@ -177,14 +184,14 @@ Failing(c, w, obs, raw) ==
                    /\ \E m \in 1..(k - 1) : Constrained(c, obs[m]) # {} /\ obs[m].err = "none" /\ ~Agree(obs[m], obs[k])}}
 =====================================================================================================
 \* Acceptance of what the real code did (used by BinRoundTripTrace).  A record is
-\*   c   = [writer, layout, descr, rows (of the array as indexed), hdr |-> [given : BOOLEAN, ents : Seq([k, v, reserved])]]
+\*   c   = [writer, layout, descr, n, block, rows (of the array as indexed), hdr |-> [given : BOOLEAN, ents : Seq([k, v, reserved])]]
 \*   w   = [err]                                                  the write call
-\*   obs = Seq([readers, err, descr, rows, hdr |-> [present, size, dtype_ok, descr, ents : Seq([k, v])]])
+\*   obs = Seq([readers, err, descr, n, rows, hdr |-> [present, size, dtype_ok, descr, ents : Seq([k, v])]])
 \*         one element per distinct outcome; readers = the entry points that returned exactly it
-\*   raw = [seen : BOOLEAN, rows]       the last Len(rows)*itemsize bytes of the file, as row tokens
+\*   raw = [seen : BOOLEAN, n, rows]       the last Len(rows)*itemsize bytes of the file, as row tokens
 \* Every clause is named; a failing clause is reported as <<entry point, clause>>.
-InScope(c) == /\ c.writer \in Writers /\ DescrOK(c.descr) /\ Len(c.rows) >= 1
-              /\ c.layout \in Layouts /\ (c.layout = "zerod" => Len(c.rows) = 1)
+InScope(c) == /\ c.writer \in Writers /\ DescrOK(c.descr) /\ TableOK(c)
+              /\ c.layout \in Layouts /\ (c.layout = "zerod" => c.n = 1)
               /\ (c.writer \in RawWriters) => (~c.hdr.given /\ c.hdr.ents = <<>>)
               /\ \A i, j \in DOMAIN c.hdr.ents : i # j => c.hdr.ents[i].k # c.hdr.ents[j].k
 
@@ -194,7 +201,7 @@ ReadersFor(c) == IF c.writer \in HdrWriters THEN Readers ELSE GivenReaders
 UserEnts(c) == {i \in DOMAIN c.hdr.ents : ~c.hdr.ents[i].reserved}
 
 HdrFailing(c, h) ==
-    (IF h.size = Len(c.rows) THEN {} ELSE {"hdr_row_count"})
+    (IF h.size = c.n THEN {} ELSE {"hdr_row_count"})
     \cup (IF h.dtype_ok /\ h.descr = c.descr THEN {} ELSE {"hdr_dtype"})
     \cup (IF \A i \in UserEnts(c) : \E j \in DOMAIN h.ents : h.ents[j].k = c.hdr.ents[i].k THEN {} ELSE {"hdr_key_missing"})
     \cup (IF \A i \in UserEnts(c) : \A j \in DOMAIN h.ents :
@@ -205,7 +212,7 @@ TableFailing(c, o) ==
     \cup (IF FTypes(o.descr) = FTypes(c.descr) THEN {} ELSE {"field_types"})
     \cup (IF FShapes(o.descr) = FShapes(c.descr) THEN {} ELSE {"subarray_shapes"})
     \cup (IF FOrders(o.descr) = FOrders(c.descr) THEN {} ELSE {"byte_order"})
-    \cup (IF Len(o.rows) = Len(c.rows) THEN (IF o.rows = c.rows THEN {} ELSE {"row_bytes"}) ELSE {"row_count"})
+    \cup (IF o.n = c.n THEN (IF o.rows = c.rows THEN {} ELSE {"row_bytes"}) ELSE {"row_count"})
 
 ObsFailing(c, o) ==
     IF o.reader \notin ReadersFor(c) THEN {}                      \* the specification does not constrain it
@@ -216,7 +223,7 @@ ObsFailing(c, o) ==
                ELSE {})
 
 \* a file written by any entry point reads identically through every other
-Agree(o1, o2) == /\ o1.descr = o2.descr /\ o1.rows = o2.rows
+Agree(o1, o2) == /\ o1.descr = o2.descr /\ o1.rows = o2.rows /\ o1.n = o2.n
                  /\ (o1.hdr.present /\ o2.hdr.present) => o1.hdr = o2.hdr
 
 Failing(c, w, obs, raw) ==
@@ -224,7 +231,7 @@ Failing(c, w, obs, raw) ==
     ELSE IF w.err = "crashed" THEN {<<c.writer, "process_crashed">>}       \* the interpreter died during the cycle
     ELSE IF w.err # "none" THEN {<<c.writer, "write_rejected">>}
     ELSE UNION {{<<obs[k].reader, cl>> : cl \in ObsFailing(c, obs[k])} : k \in DOMAIN obs}
-         \cup (IF raw.seen /\ raw.rows # c.rows THEN {<<c.writer, "raw_rows">>} ELSE {})
+         \cup (IF raw.seen /\ (raw.rows # c.rows \/ raw.n # c.n) THEN {<<c.writer, "raw_rows">>} ELSE {})
          \cup (IF /\ c.writer \in HdrWriters /\ c.hdr.given
                   /\ \E k \in DOMAIN obs : obs[k].err = "none" /\ VRange(obs[k].readers) \cap SelfReaders # {}
                   /\ ~(\E k \in DOMAIN obs : obs[k].err = "none" /\ obs[k].hdr.present)
